@@ -54,8 +54,15 @@ fn fwd(op: &Op, _ctx: &dyn Context, operands: &mut dyn CoordinateSet) -> usize {
     let F = D + DD * latc.signum();
     let H = F * t0.powf(B);
     let G = (F - 1.0 / F) / 2.0;
-    let gamma_0 = (alpha.sin() / D).asin();
-    let lambda_0 = lonc - (G * gamma_0.tan()).asin() / B;
+    // (the arguments of asin are clamped: at alpha = 90 the second one is 1 in
+    // exact arithmetic, but may round to 1 + ulp, giving NaN)
+    let gamma_0 = (alpha.sin() / D).clamp(-1.0, 1.0).asin();
+    let lambda_0 = if ninety {
+        // asin is ill-conditioned near 1: use its exact value
+        lonc - FRAC_PI_2.copysign(latc) / B
+    } else {
+        lonc - (G * gamma_0.tan()).clamp(-1.0, 1.0).asin() / B
+    };
 
     // (uc, vc): Intermediate coordinates of the projection center
     // let vc = 0.0;
@@ -96,21 +103,8 @@ fn fwd(op: &Op, _ctx: &dyn Context, operands: &mut dyn CoordinateSet) -> usize {
 
         // Variant B and/or Laborde
 
-        // The special case
-        if ninety {
-            let u = if lon == lambda_0 {
-                0.0
-            } else {
-                A * (S * c0 + V * s0).atan2(cblon) / B - uc.copysign(latc) * (lonc - lon).signum()
-            };
-            let x = v * cc + u * sc + Ec;
-            let y = u * cc - v * sc + Nc;
-            operands.set_xy(i, x, y);
-            successes += 1;
-            continue;
-        }
-
-        // The general case
+        // With atan2 (rather than the atan of Guidance Note 7-2), the general
+        // expression covers the special case alpha = 90 as well
         let u = A * (S * c0 + V * s0).atan2(cblon) / B - uc.copysign(latc);
         let x = v * cc + u * sc + Ec;
         let y = u * cc - v * sc + Nc;
@@ -161,8 +155,15 @@ fn inv(op: &Op, _ctx: &dyn Context, operands: &mut dyn CoordinateSet) -> usize {
     let F = D + DD * latc.signum();
     let H = F * t0.powf(B);
     let G = (F - 1.0 / F) / 2.0;
-    let gamma_0 = (alpha.sin() / D).asin();
-    let lambda_0 = lonc - (G * gamma_0.tan()).asin() / B;
+    // (the arguments of asin are clamped: at alpha = 90 the second one is 1 in
+    // exact arithmetic, but may round to 1 + ulp, giving NaN)
+    let gamma_0 = (alpha.sin() / D).clamp(-1.0, 1.0).asin();
+    let lambda_0 = if ninety {
+        // asin is ill-conditioned near 1: use its exact value
+        lonc - FRAC_PI_2.copysign(latc) / B
+    } else {
+        lonc - (G * gamma_0.tan()).clamp(-1.0, 1.0).asin() / B
+    };
 
     // (uc, vc): Intermediate coordinates of the projection center
     // let vc = 0.0;
